@@ -4,6 +4,7 @@ import (
 	"fmt"
 	"math/rand"
 	"path/filepath"
+	"sort"
 	"strings"
 
 	"verifharness/internal/fw"
@@ -211,6 +212,62 @@ func makeSplit(d *lexDoc, r *rand.Rand, cuts []cutPoint, maxDepth int, single in
 	if len(root.kids) == 0 {
 		return nil
 	}
+	return finishSplit(d, root, sp)
+}
+
+// makeChainSplit nests the pieces as deep as asked: the root keeps the lines before the first chosen cut point and includes the
+// rest, which keeps the lines before the second one and includes the rest, and so on ("nested to any depth").
+func makeChainSplit(d *lexDoc, r *rand.Rand, cuts []cutPoint, depth int) *splitProject {
+	nLines := len(d.lines)
+	if len(d.content) > 0 && d.content[len(d.content)-1] == '\n' {
+		nLines--
+	}
+	var ok []cutPoint
+	for _, cp := range cuts {
+		if cp.line <= 0 || cp.line >= nLines {
+			continue
+		}
+		if net, min := parenDelta(d, cp.line, nLines); net != 0 || min != 0 {
+			continue
+		}
+		if len(ok) > 0 && ok[len(ok)-1].line == cp.line {
+			continue
+		}
+		ok = append(ok, cp)
+	}
+	for _, l := range d.lex {
+		if l.Type == "keyword" && d.text(l) == "JSIGHT" && d.lineOf(l.Begin) > 0 {
+			return nil
+		}
+	}
+	if len(ok) < depth {
+		return nil
+	}
+	pick := r.Perm(len(ok))[:depth]
+	sort.Ints(pick)
+	sp := &splitProject{files: map[string][]splitEntry{}, content: map[string][]byte{}, where: map[int][2]interface{}{}, depth: depth}
+	root := &lineRange{from: 0, to: nLines, name: "root.jst"}
+	parent := root
+	for i, pi := range pick {
+		cp := ok[pi]
+		dir := filepath.Dir(parent.name)
+		if dir == "." {
+			dir = ""
+		} else {
+			dir += "/"
+		}
+		if i%7 == 3 {
+			dir += fmt.Sprintf("d%d/", i)
+		}
+		k := &lineRange{from: cp.line, to: nLines, name: fmt.Sprintf("%sc%d.jst", dir, i)}
+		parent.kids = append(parent.kids, k)
+		sp.kinds = append(sp.kinds, cp.kind)
+		parent = k
+	}
+	return finishSplit(d, root, sp)
+}
+
+func finishSplit(d *lexDoc, root *lineRange, sp *splitProject) *splitProject {
 	var emit func(rg *lineRange)
 	emit = func(rg *lineRange) {
 		// sort kids by from
@@ -408,6 +465,14 @@ func C09(c *fw.Ctx) {
 			}
 			for k := 0; k < c.Pick(3, 40); k++ {
 				send(d, makeSplit(d, r, cuts, 4, -1))
+			}
+			// chains of nested pieces as deep as the document has cut points for
+			for _, depth := range []int{5, 9, 17, 33, 65, 130} {
+				if sp := makeChainSplit(d, r, cuts, depth); sp != nil {
+					send(d, sp)
+				} else {
+					break
+				}
 			}
 		}
 	}, func(j *proto.Job, res *proto.Result) {
